@@ -251,6 +251,35 @@ def run_fields_and_pdf(ctx: Ctx):
         if not np.allclose(np.asarray(m2['T']), f_before, rtol=1e-9, atol=1e-9):
             ctx.violate('C16:field-reinterpreted-after-domain-update', f'the same latent coefficients reconstruct to a different field after update_domain '
                         f'(max change {float(np.max(np.abs(np.asarray(m2["T"]) - f_before))):.3g}); norm {case["norm"]}', case)
+    # (b2) a field quantity supplied on coordinates OTHER than the compression grid (same number of points, same end points, different
+    # spacing): model form <-> surrogate form goes through interpolation, and the latent coefficients come back (to interpolation accuracy)
+    for n in range(ctx.pick(4, 20)):
+        dof = 60
+        grid = np.linspace(-1.0, 1.0, dof)
+        rs = np.random.RandomState(ctx.seed * 19 + n)
+        a = rs.rand(12); b = 1.0 + rs.rand(12)
+        data = a[:, None] * np.sin(2 * grid) + b[:, None] * np.cos(grid)
+        fld = Variable('T', compression=SVD(rank=2, coords=grid, data_matrix=data.T))
+        vl = VariableList([fld])
+        p_ = rng.choice([1.3, 1.6, 0.7])
+        stretched = -1.0 + 2.0 * ((grid + 1.0) / 2.0) ** p_          # same count, same end points, different interior spacing
+        lat = rs.rand(3, 2) * 2 - 1
+        surr = {f'T_LATENT{i}': lat[:, i] for i in range(2)}
+        case = {'stretched_grid_case': n, 'exponent': p_, 'latent': lat.tolist()}
+        ctx.case(case, nontrivial=True, kind='dataset:other-coordinates')
+        try:
+            m1, fc = to_model_dataset(surr, vl, del_latent=True, T_coords=stretched)
+            back, _ = to_surrogate_dataset(m1, vl, del_fields=True, **fc)
+            # the field handed out on the stretched coordinates is the reconstruction evaluated there
+            m0, _ = to_model_dataset(surr, vl, del_latent=True)
+            ref = np.array([np.interp(stretched, grid, row) for row in np.asarray(m0['T'])])
+            if not np.allclose(np.asarray(m1['T']), ref, rtol=0, atol=2e-3 * float(np.max(np.abs(ref)) + 1)):
+                ctx.violate('C16:field-on-other-coordinates-wrong', 'the field returned on other coordinates is not the reconstruction interpolated to them', case)
+            for k, v in surr.items():
+                if k not in back or not np.allclose(np.asarray(back[k]), v, rtol=0, atol=2e-2 * float(np.max(np.abs(lat)) + 1)):
+                    ctx.violate('C16:dataset-roundtrip', f'field supplied on other coordinates: latent {k} {v.tolist()} -> field -> {np.asarray(back.get(k)).tolist()}', case); break
+        except Exception as e:
+            ctx.violate('C16:dataset-conversion-raises', f'other coordinates: {type(e).__name__}: {e}', case)
     # (c) sampling from the pdf
     for n in range(ctx.pick(6, 40)):
         spec = rng.choice([('N(0, 1)', (-0.5, 0.5)), ('N(2, 3)', (1.0, 2.5)), ('U(0, 10)', (4.0, 5.0)), ('LN(0, 1)', (0.5, 2.0))])
@@ -273,3 +302,16 @@ def run_fields_and_pdf(ctx: Ctx):
         out = int(np.sum((xs < lo - 1e-12 * (1 + abs(lo))) | (xs > hi + 1e-12 * (1 + abs(hi)))))
         if out:
             ctx.violate('C16:sample-outside-normalised-domain', f'{out} of 400 samples drawn with use_pdf=True lie outside the normalised domain {nd}', case)
+        # a variable held constant at a user-supplied (physical) nominal value, or at its default nominal: the returned sample is that value
+        # in normalised form (it decodes to the value and lies inside the normalised domain)
+        for nomv in (spec[1][0] + 0.3 * (spec[1][1] - spec[1][0]), None):
+            try:
+                kw_ = {'constants': {'q'}} if nomv is None else {'constants': {'q'}, 'nominal': {'q': nomv}}
+                xc = np.asarray(system.sample_inputs(3, **kw_)['q'], dtype=float)
+                want = nomv if nomv is not None else v.get_nominal()
+                dec = np.asarray(v.denormalize(xc), dtype=float)
+                if want is not None and not np.allclose(dec, want, rtol=1e-9, atol=1e-12):
+                    ctx.violate('C16:constant-sample-does-not-decode-to-its-nominal', f'sample_inputs(constants={{q}}, nominal={nomv}) returned {xc.tolist()}, which '
+                                f'decodes to {dec.tolist()} instead of {want}', case)
+            except Exception as e:
+                ctx.violate('C16:sample_inputs-raises', f'constants/nominal: {type(e).__name__}: {e}', case)
